@@ -243,6 +243,8 @@ def install(I):
         src = a[0]
         start = a[1] if len(a) > 1 else k.get("start", 0)
         if isinstance(src, SymArr) and src.items is None:
+            if src.kind == "bool" and skolem_valid(lambda i: mkbool(bnot(bterm(src.at(i)))), src.length, "nonetrue"):
+                return start      # no element is true under the current hypotheses
             f = src.fold("+")
             return I.binop_add(start, f.at(src.length))
         acc = start
